@@ -37,7 +37,7 @@ RULE = ("sessions = seeded random interleavings of steps over a query pool large
 ASSUMPTIONS = ["the fresh interpreter's observation is the reference", "dataset rewrites change the row count (timestamp granularity is not what is tested)"]
 CONFIG = {
     "quick": {"budget_s": 55, "sessions": 16, "pool": 36, "steps": 70, "observe": 7, "case_timeout_s": 900},
-    "thorough": {"budget_s": 660, "sessions": 120, "pool": 60, "steps": 220, "observe": 24, "case_timeout_s": 600},
+    "thorough": {"budget_s": 660, "sessions": 48, "pool": 60, "steps": 220, "observe": 24, "case_timeout_s": 600},
 }
 TIER = {"t": "quick"}
 
